@@ -750,3 +750,98 @@ Example blocks_example_merged :
   /\ blocks [2; 1; 3; 4] 6 true = [ mkv 0 [6; 4] [4; 1] ]
   /\ blocks [2; 1; 3; 4] 3 true = [ mkv 0 [2; 3; 3] [12; 4; 1]; mkv 3 [2; 3; 1] [12; 4; 1] ].
 Proof. repeat split; reflexivity. Qed.
+
+(* ============================================================================================
+   10. parameters with a non-default memory layout: when does a strided view of the merged shape exist *)
+Lemma loc_zero sizes : forall strides, loc sizes strides 0 = 0.
+Proof.
+  induction sizes as [|n ss IH]; intros [|st sts]; cbn [loc]; try reflexivity.
+  rewrite Zdiv_0_l, Zmod_0_l, IH. reflexivity.
+Qed.
+
+Lemma viewable_sound shape pstr M : viewable shape pstr M = true ->
+  forall i, 0 <= i < prodl shape -> loc shape pstr i = loc M (unit_strides shape pstr M) i.
+Proof.
+  unfold viewable. intros H i Hi. rewrite forallb_forall in H.
+  apply Z.eqb_eq. apply H. apply In_Zrange. exact Hi.
+Qed.
+
+(* loc only looks at the strides of dimensions of size >= 2 *)
+Lemma loc_ext M : allpos M -> forall s s', length s = length M -> length s' = length M ->
+  (forall d, (d < length M)%nat -> nth d M 0 = 1 \/ nth d s 0 = nth d s' 0) ->
+  forall i, 0 <= i < prodl M -> loc M s i = loc M s' i.
+Proof.
+  induction 1 as [|n ss Hn Hss IH]; intros s s' Hl Hl' Hd i Hi; [reflexivity|].
+  destruct s as [|st sts]; [discriminate|]. destruct s' as [|st' sts']; [discriminate|].
+  cbn [length] in Hl, Hl'. rewrite prodl_cons in Hi. pose proof (prodl_pos _ Hss) as HR.
+  cbn [loc]. f_equal.
+  - destruct (Hd 0%nat ltac:(cbn [length]; lia)) as [H1|H1]; cbn [nth] in H1.
+    + subst n. replace (i / prodl ss) with 0 by (symmetry; apply Z.div_small; lia). reflexivity.
+    + rewrite H1. reflexivity.
+  - apply IH; try lia.
+    intros d Hdl. apply (Hd (S d)). cbn [length]. lia.
+Qed.
+
+Lemma cstride_bound ss : allpos ss -> forall d, (d < length ss)%nat ->
+  0 < nth d (cstrides ss) 0 /\ nth d (cstrides ss) 0 * nth d ss 0 <= prodl ss.
+Proof.
+  induction 1 as [|n r Hn Hr IH]; intros d Hd; cbn [length] in Hd; [lia|].
+  pose proof (prodl_pos _ Hr) as HR. rewrite prodl_cons.
+  destruct d as [|d]; cbn [cstrides nth].
+  - split; lia.
+  - destruct (IH d ltac:(lia)) as [H1 H2]. split; [exact H1|]. nia.
+Qed.
+
+(* the flat index "one step in dimension d" is located at stride_d *)
+Lemma loc_unit M : allpos M -> forall s d, length s = length M -> (d < length M)%nat -> 2 <= nth d M 0 ->
+  loc M s (nth d (cstrides M) 0) = nth d s 0.
+Proof.
+  induction 1 as [|n ss Hn Hss IH]; intros s d Hl Hd H2; cbn [length] in Hd; [lia|].
+  destruct s as [|st sts]; [discriminate|]. cbn [length] in Hl.
+  pose proof (prodl_pos _ Hss) as HR.
+  destruct d as [|d]; cbn [cstrides nth loc] in *.
+  - rewrite Z.div_same, Z.mod_same, loc_zero by lia. lia.
+  - destruct (cstride_bound ss Hss d ltac:(lia)) as [Hc1 Hc2].
+    assert (Hlt : nth d (cstrides ss) 0 < prodl ss) by nia.
+    rewrite Z.div_small, Z.mod_small by lia. rewrite IH by (try assumption; lia). lia.
+Qed.
+
+Lemma nth_map_lt {A} (f : A -> Z) l d a0 : (d < length l)%nat -> nth d (map f l) 0 = f (nth d l a0).
+Proof. intros H. rewrite (nth_indep _ 0 (f a0)) by (rewrite map_length; exact H). apply map_nth. Qed.
+
+(* completeness of the predicate: if ANY stride vector makes M a view of the layout, `viewable` says so;
+   hence a refusal is accepted by the check only where no strided view of the merged shape exists *)
+Theorem viewable_complete shape pstr M s : allpos M -> prodl M = prodl shape -> length s = length M ->
+  (forall i, 0 <= i < prodl M -> loc shape pstr i = loc M s i) -> viewable shape pstr M = true.
+Proof.
+  intros HM Hnum Hl Hs. unfold viewable. apply forallb_forall. intros i Hi. apply In_Zrange in Hi.
+  apply Z.eqb_eq. rewrite Hs by lia. apply loc_ext; try assumption.
+  - unfold unit_strides. rewrite map_length, cstrides_length. reflexivity.
+  - intros d Hd. destruct (Z.eq_dec (nth d M 0) 1) as [H1|H1]; [left; exact H1|right].
+    assert (Hpos : 0 < nth d M 0).
+    { unfold allpos in HM. rewrite Forall_forall in HM. apply HM. apply nth_In. exact Hd. }
+    unfold unit_strides. rewrite (nth_map_lt _ _ _ 0) by (rewrite cstrides_length; exact Hd).
+    destruct (cstride_bound M HM d Hd) as [Hc1 Hc2].
+    rewrite Hs by nia. symmetry. apply loc_unit; try assumption. lia.
+  - lia.
+Qed.
+
+Example viewable_examples :
+  (* channels_last (4,3,2,2): strides (12,1,6,3); fusing O with I is impossible, fusing H with W is a view *)
+  viewable [4; 3; 2; 2] [12; 1; 6; 3] [12; 4] = false
+  /\ viewable [4; 3; 2; 2] [12; 1; 6; 3] [4; 3; 4] = true
+  (* transposed (4,6): strides (1,4) cannot be flattened; merging off is always a view *)
+  /\ viewable [4; 6] [1; 4] [24] = false /\ viewable [4; 6] [1; 4] [4; 6] = true.
+Proof. repeat split; vm_compute; reflexivity. Qed.
+
+(* ============================================================================================
+   11. multi-call model: shifting a view shifts the offsets it addresses *)
+Lemma offsets_from_shift k sizes : forall strides off,
+  offsets_from (k + off) sizes strides = map (Z.add k) (offsets_from off sizes strides).
+Proof.
+  induction sizes as [|n ss IH]; intros [|st sts] off; cbn [offsets_from map]; try reflexivity.
+  rewrite map_fm. apply fm_ext_in. intros i _. rewrite <- IH. f_equal. ring.
+Qed.
+
+Lemma view_offsets_shift k v : view_offsets (shift_view k v) = map (Z.add k) (view_offsets v).
+Proof. unfold view_offsets, shift_view, mkv. cbn [voff vsizes vstrides]. apply offsets_from_shift. Qed.
